@@ -43,6 +43,12 @@ type replaySlice struct {
 	Bits     int
 }
 
+type replayAlloc struct {
+	GoPath  string
+	Type    string
+	NilTerm string // SMT term that is true iff the pointer is nil in the model (empty: never nil)
+}
+
 type replayVar struct {
 	Name string
 	Type string // Go type as written inside the package under test
@@ -60,8 +66,11 @@ type ReplayInfo struct {
 	Requires []string
 	Imports  map[string]string // name -> path
 	BV       bool
+	recvName string
 	Why      string // non-empty: not replayable, reason
 	Unset    []string // inputs left at their Go zero value (no concretisation for their type)
+	Allocs   []replayAlloc // pointers to structs: allocated unless nil in the model
+	Makes    []replayAlloc // maps that are not concretised: created empty (writes to a nil map would panic)
 }
 
 // buildReplayInfo decides whether decl is in the replayable class and records how to rebuild its inputs.
@@ -91,8 +100,13 @@ func (f *FuncCtx) buildReplayInfo(decl *ast.FuncDecl, sig *types.Signature, env 
 	var add func(goPath, term string, t types.Type, depth int) bool
 	add = func(goPath, term string, t types.Type, depth int) bool {
 		if depth == 0 {
-			switch types.Unalias(t).Underlying().(type) {
-			case *types.Pointer, *types.Interface, *types.Map, *types.Chan, *types.Signature:
+			switch pt := types.Unalias(t).Underlying().(type) {
+			case *types.Pointer:
+				if _, _, ok := f.S.isDatatypeStruct(pt.Elem()); !ok {
+					ri.Why = fmt.Sprintf("%s has type %s (only pointers to structs of this module are concretised)", goPath, t)
+					return false
+				}
+			case *types.Interface, *types.Map, *types.Chan, *types.Signature:
 				ri.Why = fmt.Sprintf("%s has type %s (references, interfaces, maps and functions are not concretised)", goPath, t)
 				return false
 			case *types.Slice:
@@ -135,6 +149,36 @@ func (f *FuncCtx) buildReplayInfo(decl *ast.FuncDecl, sig *types.Signature, env 
 			}
 			ri.Unset = append(ri.Unset, goPath)
 			return true
+		case *types.Pointer:
+			_, st, ok := f.S.isDatatypeStruct(u.Elem())
+			if !ok || depth > 2 {
+				ri.Unset = append(ri.Unset, goPath)
+				return true
+			}
+			nilTerm := fmt.Sprintf("(= %s nil_%s)", term, f.S.SortOf(t))
+			if depth == 0 && goPath == ri.recvName {
+				nilTerm = ""
+			}
+			ri.Allocs = append(ri.Allocs, replayAlloc{GoPath: goPath, Type: types.TypeString(u.Elem(), qual), NilTerm: nilTerm})
+			for i := 0; i < st.NumFields(); i++ {
+				fl := st.Field(i)
+				if fl.Name() == "_" {
+					continue
+				}
+				if !fl.Exported() && fl.Pkg() != f.Pkg.Types {
+					ri.Unset = append(ri.Unset, goPath+"."+fl.Name())
+					continue
+				}
+				h := f.heapName(u.Elem(), fl)
+				if !add(goPath+"."+fl.Name(), fmt.Sprintf("(select %s %s)", f.heapGet(env, h), term), fl.Type(), depth+1) {
+					return false
+				}
+			}
+			return true
+		case *types.Map:
+			ri.Makes = append(ri.Makes, replayAlloc{GoPath: goPath, Type: types.TypeString(t, qual)})
+			ri.Unset = append(ri.Unset, goPath+" (empty map)")
+			return true
 		case *types.Struct:
 			srt, st, ok := f.S.isDatatypeStruct(t)
 			if !ok {
@@ -163,13 +207,10 @@ func (f *FuncCtx) buildReplayInfo(decl *ast.FuncDecl, sig *types.Signature, env 
 	recvName := ""
 	if decl.Recv != nil && len(decl.Recv.List) > 0 {
 		rt := sig.Recv().Type()
-		if _, isPtr := types.Unalias(rt).Underlying().(*types.Pointer); isPtr {
-			ri.Why = "pointer receiver (heap state is not concretised)"
-			return ri
-		}
 		recvName = "vrRecv"
 		if len(decl.Recv.List[0].Names) > 0 && decl.Recv.List[0].Names[0].Name != "_" {
 			recvName = decl.Recv.List[0].Names[0].Name
+			ri.recvName = recvName
 			if o := f.Pkg.TypesInfo.Defs[decl.Recv.List[0].Names[0]]; o != nil {
 				v, ok := env.vars[o]
 				if !ok || !add(recvName, v.T, rt, 0) {
@@ -545,6 +586,14 @@ func tryReplay(E *Engine, o *Obligation, rep map[string]interface{}, root, scrat
 	for _, s := range ri.Slices {
 		terms = append(terms, fmt.Sprintf("(s_len %s)", s.Term), fmt.Sprintf("(s_nil %s)", s.Term))
 	}
+	nSl := len(ri.Slices)
+	for _, a := range ri.Allocs {
+		if a.NilTerm != "" {
+			terms = append(terms, a.NilTerm)
+		} else {
+			terms = append(terms, "false")
+		}
+	}
 	vals, errs := getValues(o.Query, terms, scratch, tag, ri.BV)
 	if errs != "" {
 		rep["replay_note"] = "concretisation failed: " + errs
@@ -552,7 +601,35 @@ func tryReplay(E *Engine, o *Obligation, rep map[string]interface{}, root, scrat
 	}
 	var assigns []string
 	inputs := map[string]string{}
+	var nilPaths []string
+	under := func(path string) bool {
+		for _, np := range nilPaths {
+			if strings.HasPrefix(path, np+".") || path == np {
+				return true
+			}
+		}
+		return false
+	}
+	for i, a := range ri.Allocs {
+		if under(a.GoPath) {
+			continue
+		}
+		if vals[len(ri.Leaves)+2*nSl+i] == "true" {
+			nilPaths = append(nilPaths, a.GoPath)
+			inputs[a.GoPath] = "nil"
+			continue
+		}
+		assigns = append(assigns, fmt.Sprintf("%s = new(%s)", a.GoPath, a.Type))
+	}
+	for _, m := range ri.Makes {
+		if !under(m.GoPath) {
+			assigns = append(assigns, fmt.Sprintf("%s = make(%s)", m.GoPath, m.Type))
+		}
+	}
 	for i, l := range ri.Leaves {
+		if under(l.GoPath) {
+			continue
+		}
 		switch l.Kind {
 		case "bool":
 			assigns = append(assigns, fmt.Sprintf("%s = %s", l.GoPath, vals[i]))
@@ -578,6 +655,10 @@ func tryReplay(E *Engine, o *Obligation, rep map[string]interface{}, root, scrat
 	}
 	var sls []sl
 	for i, s := range ri.Slices {
+		if under(s.GoPath) {
+			sls = append(sls, sl{0, true})
+			continue
+		}
 		n, ok := smtInt(vals[base+2*i], true, 64)
 		if !ok || n.Sign() < 0 || n.Cmp(big.NewInt(4096)) > 0 {
 			rep["replay_note"] = fmt.Sprintf("slice %s has length %s in the model (not materialised)", s.GoPath, vals[base+2*i])
